@@ -53,6 +53,8 @@ pub struct Report {
     pub top_bytes: BTreeMap<String, usize>,
     /// total bytes per MCNK sub-chunk FourCC, summed over all MCNK
     pub sub_bytes: BTreeMap<String, usize>,
+    /// data bytes (headers not counted) per MCNK sub-chunk FourCC, summed over all MCNK
+    pub sub_data: BTreeMap<String, usize>,
     pub mcnk_count: usize,
     /// FourCC of the last sub-chunk of the last MCNK ("" when none)
     pub last_sub: String,
@@ -310,6 +312,7 @@ pub fn inspect(b: &[u8]) -> Report {
             }
             last = fourcc_name(&id);
             *r.sub_bytes.entry(last.clone()).or_insert(0) += 8 + size;
+            *r.sub_data.entry(last.clone()).or_insert(0) += size;
             pos += 8 + size;
         }
         if let Some(why) = bad {
